@@ -11,6 +11,7 @@ import (
 	"unsafe"
 
 	"github.com/douban/gobeansdb/config"
+	"github.com/douban/gobeansdb/utils"
 )
 
 var (
@@ -45,6 +46,9 @@ func (rl *ResourceLimiter) SubSizeAndCount(size int) {
 }
 
 func (rl *ResourceLimiter) AddSize(size int) {
+	if utils.VerifOn {
+		utils.Verif("rl.size", rl, size)
+	}
 	atomic.AddInt64(&rl.Size, int64(size))
 	if rl.Size > rl.MaxSize {
 		rl.MaxSize = rl.Size
@@ -52,10 +56,16 @@ func (rl *ResourceLimiter) AddSize(size int) {
 }
 
 func (rl *ResourceLimiter) SubSize(size int) {
+	if utils.VerifOn {
+		utils.Verif("rl.size", rl, -size)
+	}
 	atomic.AddInt64(&rl.Size, -int64(size))
 }
 
 func (rl *ResourceLimiter) AddCount(count int) {
+	if utils.VerifOn {
+		utils.Verif("rl.count", rl, count)
+	}
 	atomic.AddInt64(&rl.Count, int64(count))
 	if rl.Count > rl.MaxCount {
 		rl.MaxCount = rl.Count
@@ -63,6 +73,9 @@ func (rl *ResourceLimiter) AddCount(count int) {
 }
 
 func (rl *ResourceLimiter) SubCount(count int) {
+	if utils.VerifOn {
+		utils.Verif("rl.count", rl, -count)
+	}
 	atomic.AddInt64(&rl.Count, -int64(count))
 }
 
@@ -85,6 +98,9 @@ func (arr *CArray) Alloc(size int) bool {
 		return false
 	}
 	AllocRL.AddSizeAndCount(size)
+	if utils.VerifOn {
+		utils.Verif("c.alloc", arr.Addr, size)
+	}
 	arr.Cap = size
 	sliceheader := (*reflect.SliceHeader)(unsafe.Pointer(&arr.Body))
 	sliceheader.Data = arr.Addr
@@ -95,6 +111,9 @@ func (arr *CArray) Alloc(size int) bool {
 
 func (arr *CArray) Free() {
 	if arr.Addr != 0 {
+		if utils.VerifOn {
+			utils.Verif("c.free", arr.Addr, arr.Cap)
+		}
 		AllocRL.SubSizeAndCount(arr.Cap)
 		C.free(unsafe.Pointer(arr.Addr))
 		arr.Body = nil
